@@ -13,55 +13,68 @@ CLAIMS = {
     "C01": c("Decides, over every path of the run (hence every completion order, window, flag combination), that a "
              "task is created only for the members without requirement before the first wait, or under the "
              "fold-classified fact `all requirements is_done()` for that very job; that no other co_run call site "
-             "exists; that is_done is true exactly on finished tasks; that the nested body is the awaited inherited run.",
+             "exists; that is_done is true exactly on finished tasks; that the nested body is the awaited inherited run."
+             " Also: of the job's mutable state is_done() reads only the task registry, which is reset before the first start (truth tables over own task x members for nested schedulers).",
              "asyncio's own semantics.", ENGINE + " + truth table of is_done + who-may-call scan"),
     "C02": c("Decides the accounting shape behind `return True` (accumulator from 0, once per iteration, of non-forever "
              "tasks of the current done set, against the number of non-forever members), that the main wait covers "
-             "every live task and no finished one, and that the already-started test is synchronous with task creation.",
+             "every live task and no finished one, and that the already-started test is synchronous with task creation."
+             " Also: the abort detection is the exact exists-fold raised-and-critical; raised_exception() is the exception of the job's own task (tables, nested schedulers included); exception values are compared with None.",
              "nothing of the statement is left to runtime except asyncio itself.", ENGINE),
     "C03": c("Necessary conditions only: absence of the wedges the property names -- window slot free on every exit "
              "of the wrapper (typestate with cancellation and exception edges), failed requirements count as done and "
-             "release successors gathered from all done tasks, every main wait re-armed with deadline-now.",
+             "release successors gathered from all done tasks, every main wait re-armed with deadline-now."
+             " Also: every activation queues its jobs on a window it built itself.",
              "termination of run() for all schedules (liveness proper).", "typestate + " + ENGINE),
     "C04": c("Decides exit <-> verdict <-> cause-flag consistency on every return of the run, the truth tables of "
              "failed_time_out/failed_critical/why over unset / timeout 0 / positive timeout, the critical mapping of the "
-             "nested form over path facts (including exception identity), and that the wrapper never replaces an exception.",
+             "nested form over path facts (including exception identity), and that the wrapper never replaces an exception."
+             " Also: the synchronous run() returns the value of driving co_run() once, unprotected; critical/timeout are what the caller gave; exception values are compared with None.",
              "which cause wins when expiry, last completion and a critical failure share one loop iteration.",
              ENGINE + " + truth tables of pure accessors"),
     "C05": c("Decides that the abort flag is exactly `exists done task: raised and critical`, that every successor start "
              "follows a negative abort test of the same iteration, and that the abort path is cancel-all -> await-all "
-             "(unbounded) -> shutdown -> return False with no wait for normal completion.",
+             "(unbounded) -> shutdown -> return False with no wait for normal completion."
+             " Also: no slot hand-over on a critical failure; the critical flag is what the caller gave and is_critical() is that flag; exception values are compared with None; two deliveries of CancelledError are modelled.",
              "'at that same instant' as wall-clock.", ENGINE + " + EXIT automaton"),
     "C06": c("Decides non-interference: a done task's outcome reaches scheduling decisions only in the exact masked form "
              "raised-and-critical; same slot effect on both outcomes of the wrapper; failed jobs counted and their "
-             "successors released; the exception stays retrievable (registry never overwritten).",
+             "successors released; the exception stays retrievable (registry never overwritten)."
+             " Also: the diagnostic helpers the run calls cannot raise on a job's outcome; raised_exception() tables; the critical flag is what the caller gave.",
              "equality of the timed traces of two runs (relational).", "taint (non-interference) over path facts and provenance terms"),
     "C07": c("Decides the safety clause by typestate analysis of the window wrapper over every path, provenance of the "
-             "queue bound, one window per activation sized by the scheduler's own jobs_window, and a who-may-start rule.",
+             "queue bound, one window per activation sized by the scheduler's own jobs_window, and a who-may-start rule."
+             " Also: jobs_window is stored as given and written nowhere else.",
              "the bound enforced by asyncio.Queue itself.", "typestate + provenance dataflow"),
     "C08": c("Decides that the deadline is stored once per activation before the loop as clock()+own timeout, never "
              "between two main waits, that every main wait is armed with deadline-clock() (same clock), and that the "
-             "expiry path is tidy -> shutdown -> False with the timeout cause.",
+             "expiry path is tidy -> shutdown -> False with the timeout cause."
+             " Also: timeout is stored as given and written nowhere else.",
              "behaviour exactly at T; clock quality.", ENGINE + " + EXIT automaton"),
     "C09": c("Decides that `forever` influences no start condition, candidate set or wait argument, that both sides of "
-             "the completion test count non-forever jobs only, and that the success exit cancels and awaits what is pending.",
+             "the completion test count non-forever jobs only, and that the success exit cancels and awaits what is pending."
+             " Also: the forever flag is stored as given and written nowhere else; the wrapper's typestate holds for forever jobs too.",
              "instants.", ENGINE),
     "C10": c("Decides the C3 MRO table of the nestable class (which side supplies each life-cycle method, both "
              "constructors), that the nested body is the awaited inherited run with window and deadline per activation, "
-             "and the failure mapping and identity.",
+             "and the failure mapping and identity."
+             " Also: the nestable class forwards every configuration parameter unchanged to both parents; construction rules and job-truthiness rule.",
              "'same times as the flattened graph' (timing).", "MRO computation + " + ENGINE),
     "C11": c("Decides task-group discipline on every normal exit and, with a CancelledError edge forked at every "
              "may-suspend await of the run (inlined into the nested form) and of the broadcast, that every path leaving "
              "the ownership scope has cancelled and awaited all owned tasks; checks that every cancel() is part of "
-             "cancel-all-then-await-unbounded (single-cancellation model).",
+             "cancel-all-then-await-unbounded (single-cancellation model)."
+             " Two deliveries of CancelledError are modelled at every await (a canceller can be cancelled while it waits, and cancels again).",
              "job code that swallows CancelledError.", ENGINE + " with cancellation edges"),
     "C12": c("Necessary conditions: all entry jobs started before the first wait; candidates = union over all done "
              "tasks of their successors, all visited; reverse links rebuilt and exact; guard no stronger than needed; "
-             "no suspension while a slot is held.",
+             "no suspension while a slot is held."
+             " Also: is_done() is true on every finished task for atomic jobs and nested schedulers alike; the acquire really waits.",
              "FIFO hand-over of asyncio.Queue; timing.", ENGINE),
     "C13": c("Decides tidy -> shutdown -> return on every exit, atomic early once-guard with a single writer, total "
              "unfiltered broadcast through member dispatch (MRO relay for nested schedulers), bounded wait by "
-             "shutdown_timeout then cancel-and-await of stragglers, truthful boolean result.",
+             "shutdown_timeout then cancel-and-await of stragglers, truthful boolean result."
+             " Also: the synchronous shutdown() is transparent; shutdown_timeout is what the caller gave; a coroutine-based job awaits the shutdown coroutine it was given, guarded by nothing but its presence.",
              "handler durations.", ENGINE + " + MRO"),
     "C14": c("Decides the truth tables of the six inspection methods over the 7-point life-cycle domain for the job "
              "base class and the nestable class, writer monotonicity of the registry and running flag, and identity "
@@ -73,7 +86,8 @@ CLAIMS = {
              "nothing: here the structural clauses are the argument.", ENGINE + " with fold summaries"),
     "C16": c("Decides closure (every member's requirements intersected with the receiver's own member set), minimality "
              "(no other writer), unconditional recursion, and the fold truth table of the returned value over "
-             "(flag, removed, nested, nested result).",
+             "(flag, removed, nested, nested result)."
+             " The removal test must compare the state before the prune with the state after it (requirement sets are versioned, aliases follow an in-place prune).",
              "nothing.", "fold summary / truth table of the member loop"),
     "C17": c("Decides direction agreement by constant propagation, freshness of reverse links on every path of the "
              "public queries, the step (union over all starts, members only) and closure (fixpoint) shapes, yield "
@@ -85,11 +99,13 @@ CLAIMS = {
              "preservation of the transitive closure over all DAGs (relational).", "provenance terms + " + ENGINE),
     "C19": c("Decides the chain invariant across all writers of Sequence.jobs, emptiness guards of every first/last "
              "subscript, that every dispatch branch of requires() honours remove (with KeyError form) and forwards it, "
-             "indices/identity/None handling, and registration paths.",
+             "indices/identity/None handling, and registration paths."
+             " Also: who may write a `required` set (frame rule); a sequence never drops a requirement received while empty.",
              "nothing.", ENGINE + " (sibling and deviance rules)"),
     "C20": c("Decides quoting of every attribute value and typing of every emitter hole, the 4-case edge table "
              "(exhaustive, exactly one per requirement, orientation, lhead/ltail), ids before use and tree-wide "
-             "numbering, raises reachable from dot_format, DOT-subset conformance and brace balance.",
+             "numbering, raises reachable from dot_format, DOT-subset conformance and brace balance."
+             " Also: no class-level mutable object is mutated through an instance or an alias; the id templates yield DOT identifiers; the emitter is read as pieces appended to the output whatever the formatting idiom.",
              "validity of arbitrary label text beyond the quoter's contract; flag->style constants; rendering.",
              "taint/typing of format holes + " + ENGINE),
 }
